@@ -1,21 +1,24 @@
 #!/bin/bash
-# Runs every selftest/mutants/*.diff: repo test suite with the mutant (informational), then the quick
-# check of each property listed in the .props file.  Appends to selftest/results.tsv.
-cd /verif
-OUT=selftest/results.tsv
+# selftest/run_mutants.sh [<isolated dir>]  — runs every selftest/mutants/*.diff in an isolated copy
+# (created with selftest/isolated.sh; default /tmp/iso2): the repository's own test suite with the
+# mutant (informational), then the quick check of each property listed in the .props file.
+ISO=${1:-/tmp/iso2}
+[ -d $ISO/verif ] || /verif/selftest/isolated.sh $ISO
+OUT=/verif/selftest/results.tsv
 : > $OUT
-for d in selftest/mutants/*.diff; do
-  name=$(basename $d .diff); props=$(cat selftest/mutants/$name.props)
-  if ! git -C /repo diff --quiet; then echo "repo dirty, abort"; exit 3; fi
-  git -C /repo apply $d || { echo -e "$name\tAPPLY-FAILED" >> $OUT; continue; }
+export CARGO_NET_OFFLINE=true
+for d in /verif/selftest/mutants/*.diff; do
+  name=$(basename $d .diff); props=$(cat /verif/selftest/mutants/$name.props)
+  git -C $ISO/repo checkout -q -- .
+  git -C $ISO/repo apply $d || { echo -e "$name\tAPPLY-FAILED" >> $OUT; continue; }
   if [ -z "${SKIP_SUITE:-}" ]; then
-    suite=$(cd /repo && CARGO_NET_OFFLINE=true cargo nextest run --workspace --no-fail-fast --offline 2>&1 | grep -E "Summary|error: could not compile" | tail -1 | sed 's/.*Summary \[[^]]*\] *//' | cut -c1-60)
+    suite=$(cd $ISO/repo && cargo nextest run --workspace --no-fail-fast --offline 2>&1 | grep -E "Summary|error: could not compile" | tail -1 | sed 's/.*Summary \[[^]]*\] *//' | cut -c1-60)
   else suite="(not run)"; fi
   for ID in $props; do
-    o=$(./check $ID quick 2>&1); rc=$?
+    o=$(cd $ISO/verif && GV_ROOT=$ISO/verif ./check $ID quick 2>&1); rc=$?
     reason=$(echo "$o" | grep -m1 'reason:' | cut -c1-160)
     echo -e "$name\t$ID\texit=$rc\t$suite\t$reason" >> $OUT
   done
-  git -C /repo checkout -- .
+  git -C $ISO/repo checkout -q -- .
 done
 echo DONE >> $OUT
